@@ -8,6 +8,8 @@ Objects:
   `printTokens`  Model/PrintTokens.lean  main.c `print_tokens`
   `needSpace`    Gen/LexGen.lean         main.c `need_space`, regenerated from the source on every run (with `ops[]`,
                                          `is_word_char`, the punctuator table `kw[]`, the pp-number sets, the is_ident ranges)
+  `secondPassX`  Model/C19Bridge.lean    the second `-E` pass on a freshly tokenized list: `preprocess2` of Model/PP.lean (the
+                                         model C09/C10 tie to preprocess.c) from the table of `init_macros` (Gen/PPGen.lean)
   `selfLexing a` the spelling `a`, scanned alone, is exactly one token spelled `a` (decidable, Model/Lex.lean).
                  Every token `tokenize` produces has such a spelling (C19_lexed_tokens_self_lexing), and every token of a -E
                  output was produced by some call of `tokenize` (source text, `##` paste, `#` stringize, builtin macros).
@@ -18,6 +20,7 @@ followed by a newline or by `uXXXX`; such a token never survives into a valid pr
 -/
 import ChibiVerif.Lemmas.LexSeq
 import ChibiVerif.Lemmas.LexClosure
+import ChibiVerif.Lemmas.C19Bridge
 
 namespace ChibiVerif.Props.C19
 open ChibiVerif.Lex ChibiVerif.Gen.Lex
@@ -138,5 +141,87 @@ example : ∃ ts', lex (printTokens [⟨.ident, [97], true, false⟩, ⟨.punct,
       ⟨.punct, [45], false, false⟩, ⟨.ppnum, [49], false, false⟩]) = .ok ts' ∧
     printTokens (id ts') = [97, 10, 45, 32, 45, 49, 10] :=
   C19_idempotent_partial id (fun _ => false) (fun _ _ => rfl) _ (by decide) (by decide) (by decide)
+
+open ChibiVerif.C19Bridge in
+/-- **C19 (second pass, the actual preprocessor).**  Let `ts` be what the first `-E` pass holds when it prints: self-lexing
+    spellings, first token at the beginning of a line, and INERT with respect to the table the second pass starts from —
+    no `#` at the beginning of a line and no spelling that is the name of a macro `init_macros` defines (predefined
+    object-like macros and the built-ins `__FILE__ __LINE__ __COUNTER__ __TIMESTAMP__ __BASE_FILE__`; the list is
+    regenerated from preprocess.c).  Then `tokenize` reads a list `ts'` back from the printed text, chibicc's
+    `preprocess2` — the model of Model/PP.lean, started from the table of `init_macros`, for every display name and every
+    fuel ≥ the number of tokens — returns EXACTLY that list (every field of every token: kind, spelling, `at_bol`,
+    `has_space`, empty hide set, no origin, line), and printing it gives the first pass's text byte for byte.
+
+    The hypothesis is the weakest of its shape: Findings/C19.lean shows, on the models and confirmed on the binary, that a
+    `#` at line start (`#define H #` / `H define X 1`) and a surviving initial-table name (`#undef linux` / `linux`,
+    `#define linux linux`, `#define unix() 0` / `unix`) each make the second pass change the text. -/
+theorem C19_idempotent (ts : List Tok) (h : ∀ t ∈ ts, selfLexing t.text = true)
+    (hfirst : ∀ t ∈ ts.head?, t.atBol = true) (hin : Inert isInitMacro ts = true)
+    (fuel : Nat) (hfuel : ts.length ≤ fuel) (file : String) :
+    ∃ ts', lex (printTokens ts) = .ok ts' ∧ secondPassX fuel file ts' = .ok (toPPs ts') ∧
+      printTokens ts' = printTokens ts := by
+  refine ⟨relexed ts, lex_printTokens ts h, ?_, ?_⟩
+  · have hr := printFrom_relex ts none none rfl (fun _ => hfirst)
+    have ht := relexed_text ts
+    refine secondPassX_inert fuel file (relexed ts) ?_ ?_
+    · rw [length_eq_of_map_text _ _ ht]; exact hfuel
+    · have hb : (relexed ts).map (·.atBol) = ts.map (·.atBol) := hr.2
+      unfold Inert at hin
+      unfold inertInit
+      rw [all_congr_of_maps (fun x b => !(b && x == [35]) && !isInitMacro x) (fun _ => rfl) _ _ ht hb]
+      exact hin
+  · exact (printFrom_relex ts none none rfl (fun _ => hfirst)).1
+
+open ChibiVerif.C19Bridge in
+/-- non-vacuity: `a` newline `- -1 "linux" __LINE` (a string that spells a macro name and an identifier that is a prefix
+    of one are inert) -/
+example : ∃ ts', lex (printTokens [⟨.ident, [97], true, false⟩, ⟨.punct, [45], true, true⟩, ⟨.punct, [45], false, false⟩,
+      ⟨.ppnum, [49], false, false⟩, ⟨.str, [34, 108, 105, 110, 117, 120, 34], false, true⟩, ⟨.ident, [95, 95, 76, 73, 78, 69], false, true⟩]) = .ok ts' ∧
+    secondPassX 6 "b.c" ts' = .ok (toPPs ts') ∧ printTokens ts' = [97, 10, 45, 32, 45, 49, 32, 34, 108, 105, 110, 117, 120, 34, 32, 95, 95, 76, 73, 78, 69, 10] :=
+  C19_idempotent _ (by decide) (by decide) (by decide) 6 (by decide) "b.c"
+
+open ChibiVerif.C19Bridge in
+/-- **C19 (second pass, as text).**  `C19_idempotent_Statement` for the actual second pass (`secondPass fuel file`:
+    re-read, `preprocess2` from the table of `init_macros`, back to printer tokens), restricted to the region where it is
+    true: inert token lists (see `C19_idempotent`) whose code points are Unicode scalar values (what `decode_utf8` yields on
+    well-formed UTF-8; needed only to carry spellings through `String`).  Printing, re-reading, preprocessing again and
+    printing again reproduces the text.  Outside the region the statement is false: Findings/C19.lean. -/
+theorem C19_idempotent_text (fuel : Nat) (file : String) (ts : List Tok) (h : ∀ t ∈ ts, selfLexing t.text = true)
+    (hfirst : ∀ t ∈ ts.head?, t.atBol = true)
+    (hin : Inert isInitMacro ts = true) (hv : validText ts = true) (hfuel : ts.length ≤ fuel) :
+    ∃ ts', lex (printTokens ts) = .ok ts' ∧ printTokens (secondPass fuel file ts') = printTokens ts := by
+  obtain ⟨ts', hl, hp, hpr⟩ := C19_idempotent ts h hfirst hin fuel hfuel file
+  refine ⟨ts', hl, ?_⟩
+  have hrel : ts' = relexed ts := by
+    have := lex_printTokens ts h
+    rw [hl] at this
+    exact Except.ok.inj this
+  have hv' : validText ts' = true := by
+    rw [hrel, validText_congr _ _ (relexed_text ts)]; exact hv
+  unfold secondPass
+  rw [hp]
+  simp only
+  rw [show toPPs ts' = toPPsFrom 0 ts' from rfl, map_ofPP_toPPsFrom ts' 0 hv']
+  exact hpr
+
+open ChibiVerif.C19Bridge in
+/-- non-vacuity: `x = é - -1;` — the hypotheses hold -/
+example : ∃ ts', lex (printTokens [⟨.ident, [120], true, false⟩, ⟨.punct, [61], false, true⟩, ⟨.ident, [233], false, true⟩,
+      ⟨.punct, [45], false, true⟩, ⟨.punct, [45], false, false⟩, ⟨.ppnum, [49], false, false⟩, ⟨.punct, [59], false, false⟩])
+      = .ok ts' ∧ printTokens (secondPass 7 "b.c" ts') = [120, 32, 61, 32, 233, 32, 45, 32, 45, 49, 59, 10] :=
+  C19_idempotent_text 7 "b.c" _ (by decide) (by decide) (by decide) (by decide) (by decide)
+
+/-- **C19 (the first pass never emits a directive).**  No token in the output of `preprocess2` — any table, any input,
+    any fuel — is a `#` with `at_bol` and without origin: a `#` that starts a line of the `-E` text was produced by a macro
+    expansion (6.10.3.4p3: not a directive for the first pass; the text does not carry that, Findings/C19.lean). -/
+theorem C19_output_hash_has_origin (lx : String → ChibiVerif.PP.LexOne) (n : Nat) (st st' : ChibiVerif.PP.St)
+    (src out : List ChibiVerif.PP.Tok) (h : ChibiVerif.PP.preprocess2 lx n st src = .ok (out, st')) :
+    ∀ u ∈ out, u.atBol = true → u.text = "#" → u.origin.isSome = true := by
+  intro u hu hb ht
+  have := ChibiVerif.C19Bridge.preprocess2_out_not_hash lx n st src out st' h u hu
+  unfold ChibiVerif.PP.isHash at this
+  cases ho : u.origin with
+  | some _ => rfl
+  | none => simp [hb, ht, ho] at this
 
 end ChibiVerif.Props.C19
